@@ -78,11 +78,23 @@ Theorem C18_prefix_suffix : forall s x,
 Proof. exact (fun s x => conj (c18_hasPrefix_iff s x) (c18_hasSuffix_iff s x)). Qed.
 Print Assumptions C18_prefix_suffix.
 
+(* the same through the real signature `const char*` (argument cut at its first NUL), for any character container *)
+Theorem C18_prefix_suffix_cstring : forall s x,
+  (c18_hasPrefix_c s x = true <-> exists t, s = c18_cstr x ++ t) /\ (c18_hasSuffix_c s x = true <-> exists t, s = t ++ c18_cstr x).
+Proof. exact (fun s x => conj (c18_hasPrefix_c_iff s x) (c18_hasSuffix_c_iff s x)). Qed.
+Print Assumptions C18_prefix_suffix_cstring.
+
 (* formatString: for every expansion F of any length (shorter than, equal to, longer than the buffer size
    re-read from the source) the result is F as a C string; F itself when it has no NUL *)
 Theorem C18_format : forall F, c18_formatString F = c18_cstr F /\ (c18_nulfree F -> c18_formatString F = F).
 Proof. exact c18_formatString_correct. Qed.
 Print Assumptions C18_format.
+
+(* a failing conversion (snprintf < 0) is reported as an exception, a successful one never is *)
+Theorem C18_format_error : forall F,
+  c18_formatString_err None = None /\ c18_formatString_err (Some F) = Some (c18_cstr F).
+Proof. exact c18_formatString_err_correct. Qed.
+Print Assumptions C18_format_error.
 
 Theorem C18_format_any_buffer : forall n F, 1 <= n -> c18_formatString_n n F = c18_cstr F.
 Proof. exact c18_formatString_n_cstr. Qed.
